@@ -54,7 +54,7 @@ func genManifest(vdir string) error {
 				"text":       "Static analysis of the type-checked source (go/packages + go/types + AST path walker), repository-specific rules. Decided: " + p.Explanation + " NOT decided (a green run must not be read as covering it): " + p.NotDecided,
 				"design_ref": "DESIGN.md §4 " + id,
 			},
-			"level_note": "Trusted base: go/packages loader and go/types; the walker's stated bounds (inlining <= 10 declared functions, loops unrolled 2, <= 20000 paths, exceeding them fails); assumptions: " + joinStr(p.Assumptions),
+			"level_note": "Trusted base: go/packages loader and go/types; the walker's stated bounds (inlining <= 10 declared functions, loops unrolled 2, <= 60000 paths, exceeding them fails); assumptions: " + joinStr(p.Assumptions),
 			"technique":  p.Technique,
 		})
 	}
